@@ -110,6 +110,13 @@ def history(draw):
     centre = u(-1, 1)
     cov = dict(q=[u(-1, 1) for _ in range(36)], exps=[centre + u(-5, 5) for _ in range(6)],
                scaled=draw(st.booleans()), sr=10 ** u(-1, 4), sv=10 ** u(-4, 1))
+    # strictly SEMI-definite matrices (the quantifier says positive semi-definite): some eigenvalues exactly zero,
+    # or a position-only covariance (zero velocity rows and columns)
+    sing = draw(st.integers(0, 5))
+    if sing == 0:
+        cov["null"] = sorted(set(draw(st.integers(0, 5)) for _ in range(draw(st.integers(1, 4)))))
+    elif sing == 1:
+        cov["position_only"] = True
     # 1975-01-01 .. 2016-12-31, microseconds since 1975-01-01
     span = 42 * 365 * 86400 * 10**6
     t = int(u() * span)
@@ -244,7 +251,15 @@ def _make_c0(spec):
     if abs(np.linalg.det(q)) < 1e-6:
         q = q + np.eye(6)
     A, _ = np.linalg.qr(q)
-    C = A @ np.diag(10.0 ** np.array(spec["exps"], float)) @ A.T
+    lam = 10.0 ** np.array(spec["exps"], float)
+    for k in spec.get("null") or []:
+        lam[k] = 0.0
+    C = A @ np.diag(lam) @ A.T
+    if spec.get("position_only"):
+        A3, _ = np.linalg.qr(q[:3, :3] + 3 * np.eye(3))
+        C = np.zeros((6, 6))
+        C[:3, :3] = A3 @ np.diag(lam[:3] + 10.0 ** spec["exps"][3]) @ A3.T
+        return (C + C.T) / 2
     if spec["scaled"]:
         dg = np.sqrt(np.diag(C))
         C = C / np.outer(dg, dg)
@@ -335,6 +350,8 @@ class Model:
             # its rounding stays in the matrix when the covariance moves on
             sv2 += OMEGA_E**2 * np.trace(B[:3, :3])
         sv = math.sqrt(sv2)
+        if sv < OMEGA_E * sp:
+            sv = OMEGA_E * sp          # (a position-only covariance: the scale of what an Earth-fixed frame couples in)
         s = np.array([sp] * 3 + [sv] * 3)
         return (E + E.T) / 2, s
 
@@ -404,7 +421,10 @@ def check_cov(model, cov, F, step, what="covariance", worst=None):
     if asym > 1e-11:
         raise Violation("cov-asymmetric", f"{what} in {F}: |C - C^T| = {asym:.3g} (scaled) [{where}]", step=step)
     w = np.linalg.eigvalsh((C + C.T) / 2 / S)
-    if w[0] < -1e-9 * w[-1]:
+    # (a strictly semi-definite C0 has eigenvalues that are zero up to the rounding of its own construction:
+    # the smallest eigenvalue is judged against that of the expected matrix)
+    wE = np.linalg.eigvalsh(E / S)
+    if w[0] < min(0.0, wE[0]) - 1e-9 * w[-1]:
         raise Violation("cov-not-psd", f"{what} in {F}: smallest eigenvalue {w[0]:.3g}, largest {w[-1]:.3g} (scaled) [{where}]",
                         step=step)
     wp = np.linalg.eigvalsh((C[:3, :3] + C[:3, :3].T) / 2)
